@@ -64,6 +64,15 @@ type recE[G any] struct {
 	Total float64 `shp:"name"`
 	Name  string  `shp:"count"`
 }
+// recF: column names of eleven bytes (the most a dBase field name holds) that agree in their first ten bytes, next to
+// a ten-byte name that is the common prefix of another pair
+type recF[G any] struct {
+	Shape       G
+	Population1 int
+	Population2 float64
+	Measurement string
+	Measuremen  string
+}
 type recB[G any] struct {
 	S string
 	G G
@@ -131,6 +140,9 @@ func gen(t *rapid.T) Case {
 	}
 	if c.API == "struct" && c.Layout != "D" && rapid.IntRange(0, 4).Draw(t, "crossnames") == 3 {
 		c.Layout = "E" // tags and Go field names form a cycle: the tag has to win over the name
+	}
+	if c.API == "struct" && c.Layout != "D" && c.Layout != "E" && rapid.IntRange(0, 5).Draw(t, "longnames") == 2 {
+		c.Layout = "F" // eleven-byte column names that agree in their first ten bytes
 	}
 	c.DecodeAs = rapid.SampledFrom([]string{"concrete", "iface", "same"}).Draw(t, "decodeas") // same: the field type the record was written with (differs from concrete for LineString only)
 	c.Reuse = rapid.Bool().Draw(t, "reuse")
@@ -302,6 +314,39 @@ func structRT[GE any, GD any](c Case, file string, conv func(vkit.GJ) GE) ([]got
 			}
 			g, _ := any(rec.Shape).(geom.Geom)
 			out = append(out, got{g: g, i: rec.Count, f: rec.Total, s: rec.Name})
+		}
+		if err := d.Error(); err != nil {
+			return out, "Decoder.Error: " + err.Error()
+		}
+	case "F":
+		e, err := gshp.NewEncoder(file, recF[GE]{})
+		if err != nil {
+			return nil, "NewEncoder: " + err.Error()
+		}
+		for k, r := range c.Recs {
+			if err := e.Encode(recF[GE]{Shape: conv(r.G), Population1: r.I, Population2: r.F, Measurement: r.S, Measuremen: r.S2}); err != nil {
+				e.Close()
+				return nil, fmt.Sprintf("Encode record %d: %v", k, err)
+			}
+		}
+		e.Close()
+		d, err := gshp.NewDecoder(file)
+		if err != nil {
+			return nil, "NewDecoder: " + err.Error()
+		}
+		defer d.Close()
+		var shared recF[GD]
+		for {
+			var fresh recF[GD]
+			rec := &fresh
+			if c.Reuse {
+				rec = &shared
+			}
+			if !d.DecodeRow(rec) {
+				break
+			}
+			g, _ := any(rec.Shape).(geom.Geom)
+			out = append(out, got{g: g, i: rec.Population1, f: rec.Population2, s: rec.Measurement, s2: rec.Measuremen, hasS2: true})
 		}
 		if err := d.Error(); err != nil {
 			return out, "Decoder.Error: " + err.Error()
